@@ -462,6 +462,14 @@ func (t *Teamserver) Start() {
 			HandlerData.Endpoint = Data["Endpoint"].(string)
 
 			if err := t.ListenerStart(handlers.LISTENER_EXTERNAL, HandlerData); err != nil && err.Error() != "listener already exists" {
+				if err.Error() == "endpoint is already in use" {
+					// saved by a version that listed two listeners for one endpoint: it cannot run
+					logger.Error("Listener " + HandlerData.Name + " from db not started: " + err.Error())
+					if err := t.DB.ListenerRemove(HandlerData.Name); err != nil {
+						logger.Error("Failed to remove listener: ", HandlerData.Name)
+					}
+					break
+				}
 				logger.SetStdOut(os.Stderr)
 				logger.Error("Failed to start listener from db: " + err.Error())
 				return
